@@ -180,6 +180,9 @@ def run_check(prop, tier, seed=0):
         printed.add(o["key"])
         print("KNOWN-FINDING: property=%s %s %s — %s" % (prop, o["key"], o["where"], k.get("what", "")))
     replay = None
+    stale = os.path.join(evdir, "replay", "%s.json" % prop)
+    if not viol and os.path.exists(stale):
+        os.remove(stale)
     if viol:
         replay = os.path.join(evdir, "replay", "%s.json" % prop)
         json.dump({"property": prop, "violations": viol, "repo_hash": core.repo_hash()},
